@@ -31,7 +31,7 @@ func checkC12(e *Env) {
 	dts := e.fn("internal/cbor.(*Decoder).DecodeTextString")
 	e.requireGates("GATE", dts, bo, noCfg,
 		gate.CallOK("S.bytes", "(*cbor.Decoder).decodeBytesOfType", "param:d", "const:96"),
-		gate.CallBool("S.utf8", "utf8.Valid", true, "call:(*cbor.Decoder).decodeBytesOfType(param:d,const:96)#0"))
+		either("S.utf8", "the bytes are valid UTF-8", gate.CallBool("", "utf8.Valid", true, "call:(*cbor.Decoder).decodeBytesOfType(param:d,const:96)#0"), gate.CallBool("", "utf8.ValidString", true, "conv(call:(*cbor.Decoder).decodeBytesOfType(param:d,const:96)#0)")))
 	for _, t := range []struct{ fn, typ string }{
 		{"internal/cbor.(*Decoder).DecodeUint", "const:0"}, {"internal/cbor.(*Decoder).DecodeArrayHeader", "const:128"}, {"internal/cbor.(*Decoder).DecodeMapHeader", "const:160"},
 	} {
@@ -39,7 +39,7 @@ func checkC12(e *Env) {
 	}
 	e.requireResult("RESULT", e.fn("internal/cbor.(*Decoder).DecodeByteString"), bo, 0, "call:(*cbor.Decoder).decodeBytesOfType(param:d,const:64)#0", "decodeBytesOfType(TypeBytes)")
 	rb := e.fn("internal/cbor.(*Decoder).ReadByte")
-	e.requireGates("GATE", rb, bo, noCfg, gate.CallOK("R.read", "io.ReadFull", "param:d.r", "slice(alloc:[1]byte,,const:1)"))
+	e.requireGates("GATE", rb, bo, noCfg, gate.CallOK("R.read", "io.ReadFull", "param:d.r", "{slice(alloc:[1]byte,*)|local:*|slice(local:*,*)}"))
 
 	scope := parserScope(e, parserEntries)
 	runUntrusted(e, scope, func(f *ssa.Function) bool {
